@@ -6,6 +6,7 @@ package main
 
 import (
 	"context"
+	"encoding/json"
 	"errors"
 	"fmt"
 	"net"
@@ -382,6 +383,8 @@ type runner struct {
 	udp     bool
 	extra   []*bmc.V2SessionlessTransport
 	kept    map[string]ipmi.Command // command values reused across calls of one script (step option "keep")
+	held    []heldValue             // results the caller still holds when later responses arrive
+	heldMu  sync.Mutex
 	v2opts  *bmc.V2SessionOpts      // one options value kept by the caller (step option "keepOpts")
 	fsr     *ipmi.FullSensorRecord  // one record value decoded into repeatedly (NewSensorReader option "sharedRecord")
 	pwBuf   []byte                  // credential buffers rewritten in place (script option "reuseCreds")
@@ -407,6 +410,44 @@ func arenaSlice(v []byte) []byte {
 	s := credArena.buf[int(end)-len(v) : end]
 	copy(s, v)
 	return s
+}
+
+// heldValue is a result handed to the caller (a command's response struct, a
+// convenience method's return value) together with what it looked like at that
+// moment: the caller may read it at any later time, so nothing that arrives
+// afterwards may change it.
+type heldValue struct {
+	label string
+	v     reflect.Value
+	first string
+}
+
+func (r *runner) hold(label string, v reflect.Value) {
+	if label == "Get Channel Cipher Suites" || label == "GetChannelCipherSuites" {
+		// documented to reference the decoded packet (pkg/ipmi/get_channel_cipher_suites.go: "should be appended
+		// to a buffer before reading the next packet"): not a value the caller may keep
+		return
+	}
+	b, _ := json.Marshal(project(v))
+	r.heldMu.Lock()
+	r.held = append(r.held, heldValue{label, v, string(b)})
+	r.heldMu.Unlock()
+}
+
+func (r *runner) reportHeld() {
+	r.heldMu.Lock()
+	defer r.heldMu.Unlock()
+	if len(r.held) == 0 {
+		return
+	}
+	changed := []any{}
+	for _, h := range r.held {
+		b, _ := json.Marshal(project(h.v))
+		if string(b) != h.first {
+			changed = append(changed, h.label)
+		}
+	}
+	r.ev(M{"ev": "held", "n": len(r.held), "changed": changed})
 }
 
 func keepBuf(buf *[]byte, v []byte) []byte {
@@ -529,6 +570,9 @@ func (r *runner) invoke(ctx context.Context, s M, ret M) {
 		ret["cmdName"] = cmd.Name()
 		if f := reflect.ValueOf(cmd).Elem().FieldByName("Rsp"); f.IsValid() {
 			ret["value"] = project(f)
+			if err == nil && s["keep"] != true {
+				r.hold(cmd.Name(), f)
+			}
 		}
 	case "Raw":
 		cmd := &rawCmd{name: "Raw", op: ipmi.Operation{Function: ipmi.NetworkFunction(num(args["netfn"])),
@@ -589,6 +633,7 @@ func (r *runner) invoke(ctx context.Context, s M, ret M) {
 		}
 		setErr(err)
 		if len(out) == 2 && err == nil {
+			r.hold(s["method"].(string), out[0])
 			ret["value"] = project(out[0])
 		}
 	case "Close":
@@ -935,6 +980,7 @@ func (r *runner) run() {
 			i++
 		}
 	}
+	r.reportHeld()
 }
 
 func runScript(hdr, sc M, wdog time.Duration) []M {
